@@ -53,6 +53,12 @@ CHECKS = {
              "same symbolic parameters; the solver must confirm on all paths that either every order raises "
              "DeclarationError or every order succeeds with pair-wise equal schemas.",
         design="4/C11"),
+    "C10": dict(
+        text="Bounded symbolic execution of the real declaration methods, one harness per call chain: every argument "
+             "is a symbolic scalar of any of five types or a solver-chosen member of a wrong-type menu. Solver must "
+             "confirm on all paths: only DeclarationError escapes, a rejected call leaves the receiver's registry "
+             "untouched, a fixed value validates against the returned schema, re-declaration is rejected.",
+        design="4/C10"),
 }
 
 NOT_YET = {
